@@ -1084,7 +1084,7 @@ pub fn builtin_catalog() -> Catalog {
             matrix.push(g);
         })*};
     }
-    seq_group!(u16, String, i64, (u8, u16), i8, u32, bool, i16, char, u64, Option<u8>, (), i128, Uuid, (String, bool));
+    seq_group!(u16, String, i64, (u8, u16), i8, u32, bool, i16, char, u64, Option<u8>, (), i128, Uuid, (String, bool), Vec<u16>, BTreeSet<i8>);
     macro_rules! pair_group {
         ($(($k:ty, $v:ty)),*) => {$({
             let en = format!("{},{}", stringify!($k), stringify!($v)).replace(' ', "");
